@@ -560,6 +560,7 @@ struct Config
   bool flush_races_shutdown    = false;
   bool post_shutdown_ops       = true;
   bool gate                    = false;
+  bool backlog_flush           = false;  // directed scenario: flushes arrive while a multi-batch backlog is exported
   int extra_processors         = 0;
   unsigned yield_ppm = 0, sleep_ppm = 0, cas_ppm = 0, wake_ppm = 0;
   std::string describe() const
@@ -633,6 +634,36 @@ static Config make_config(Rng &r, bool thorough)
   c.post_shutdown_ops       = r.chance(3, 4);
   c.gate                    = r.chance(1, 8) && c.subject < 2 && c.delay_ms <= 50;
   c.extra_processors        = (c.subject == 2 || c.subject == 3) ? static_cast<int>(r.range(0, 2)) : 0;
+  if (r.chance(1, 6) && c.subject < 4)
+  {
+    // Directed scenario (from seeded change C01-spare): a slow exporter, a small batch size and a burst that
+    // fills the queue, so that the worker is in the middle of a multi-batch snapshot while ForceFlush callers
+    // arrive and producers keep adding; then exactly max_queue_size records between two completed flushes.
+    c.backlog_flush = true;
+    static const size_t qs[] = {4, 8, 16};
+    c.queue = r.pick(qs);
+    c.batch = static_cast<size_t>(r.range(1, 3));
+    c.delay_ms = static_cast<int>(r.range(1, 5));
+    c.gate  = false;
+    c.phases.clear();
+    Phase burst;
+    burst.producers     = static_cast<int>(r.range(2, 4));
+    burst.per_producer  = static_cast<int>(c.queue);
+    burst.flushers      = 2;
+    burst.flushes_each  = 3;
+    burst.flush_timeout = 4;
+    burst.quiescent_flush = false;
+    c.phases.push_back(burst);
+    Phase bounded;
+    bounded.bounded_by_queue = true;
+    bounded.quiescent_flush  = true;
+    bounded.flushers         = 0;
+    bounded.producers        = static_cast<int>(std::min<size_t>(static_cast<size_t>(r.range(1, 4)), c.queue));
+    bounded.per_producer     = static_cast<int>(c.queue / static_cast<size_t>(bounded.producers));
+    c.phases.push_back(bounded);
+    if (r.coin())
+      c.phases.push_back(bounded);
+  }
   switch (r.below(3))
   {
     case 0:
@@ -1247,6 +1278,13 @@ static void run_history(uint64_t seed, bool thorough)
     for (auto &p : c.phases)
       p.per_producer = std::min(p.per_producer, 40);
   }
+  if (c.backlog_flush)
+  {
+    script->latency_mode = 2;
+    script->slow_us      = static_cast<unsigned>(r.range(300, 1500));
+    slow                 = true;
+    R.count("histories_backlog_flush");
+  }
   script->export_fail    = r.chance(1, 6);
   script->flush_false    = r.chance(1, 6);
   script->shutdown_false = r.chance(1, 6);
@@ -1333,10 +1371,10 @@ static void run_history(uint64_t seed, bool thorough)
           logged_produce(S, static_cast<uint64_t>(p), base[static_cast<size_t>(p)] + static_cast<uint64_t>(k));
       });
     for (int f = 0; f < ph.flushers; ++f)
-      th.emplace_back([&S, &ph, f] {
+      th.emplace_back([&S, &ph, &c, f] {
         for (int k = 0; k < ph.flushes_each; ++k)
         {
-          logged_flush(S, FlushSpec{(ph.flush_timeout + f + k) % 5});
+          logged_flush(S, FlushSpec{c.backlog_flush ? 4 : (ph.flush_timeout + f + k) % 5});
           if (k + 1 < ph.flushes_each)
             usleep(200);
         }
